@@ -21,6 +21,7 @@ import (
 	"github.com/mycoria/mycoria/frame"
 	"github.com/mycoria/mycoria/mgr"
 
+	"verifharness/internal/conntrack"
 	"verifharness/internal/mesh"
 	"verifharness/internal/vf"
 	"verifharness/internal/world"
@@ -424,6 +425,11 @@ func run(c *vf.Ctx) {
 		}
 	}
 	c.Logf("T done")
+
+	// ---- the policy over HISTORIES of one router (ConnTrack.tla): verdicts cached per 5-tuple, error pings of any
+	// router about any other, time, the cleaner, hello exchanges - whatever happened before, what the policy forbids is
+	// not let through
+	conntrack.Run(c, true)
 }
 
 var a0svcsNone []svc
